@@ -605,6 +605,13 @@ impl GrafeoDB {
 
     // === Node Operations ===
 
+    /// A write made directly on the database commits on its own: it takes a fresh
+    /// epoch, so that transactions which began earlier keep their snapshot.
+    fn begin_auto_commit_write(&self) {
+        let epoch = self.tx_manager.advance_epoch();
+        self.store.sync_epoch(epoch);
+    }
+
     /// Creates a node with the given labels and returns its ID.
     ///
     /// Labels categorize nodes - think of them like tags. A node can have
@@ -620,6 +627,7 @@ impl GrafeoDB {
     /// let company = db.create_node(&["Company", "Startup"]);
     /// ```
     pub fn create_node(&self, labels: &[&str]) -> grafeo_common::types::NodeId {
+        self.begin_auto_commit_write();
         let id = self.store.create_node(labels);
 
         // Log to WAL if enabled
@@ -656,6 +664,7 @@ impl GrafeoDB {
             .map(|(k, v)| (k.into(), v.into()))
             .collect();
 
+        self.begin_auto_commit_write();
         let id = self
             .store
             .create_node_with_props(labels, props.iter().map(|(k, v)| (k.clone(), v.clone())));
@@ -846,6 +855,7 @@ impl GrafeoDB {
         dst: grafeo_common::types::NodeId,
         edge_type: &str,
     ) -> grafeo_common::types::EdgeId {
+        self.begin_auto_commit_write();
         let id = self.store.create_edge(src, dst, edge_type);
 
         // Log to WAL if enabled
@@ -886,6 +896,7 @@ impl GrafeoDB {
             .map(|(k, v)| (k.into(), v.into()))
             .collect();
 
+        self.begin_auto_commit_write();
         let id = self.store.create_edge_with_props(
             src,
             dst,
